@@ -650,7 +650,17 @@ class Interp:
                     tv = truth(v, s.sym)
                     out.append((s, R(0, 1) if tv is None else C(1 if tv else 0)))
                 else:
-                    out.append((s, fit(v, t, s.sym) if is_int(v) else (v if v[0] == 'uninit' else TOP)))
+                    r_ = fit(v, t, s.sym) if is_int(v) else (v if v[0] == 'uninit' else TOP)
+                    # a number typed by the user that is cut down to a narrower type is still "that number, as the narrower type
+                    # sees it": keep a name for it (validation rules look for the name), with the range of the target type
+                    if is_int(v) and v[0] == 'l' and v[1] == 0 and len(v[2]) == 1 and v[2][0][1] == 1 and str(v[2][0][0]).startswith('$atoi') \
+                            and not (r_[0] == 'l' and any(sy == v[2][0][0] for sy, _ in r_[2])):
+                        tr_ = type_range(t) if t else None
+                        if tr_ is not None:
+                            nm_ = '%s>%s' % (v[2][0][0], (t or {}).get('bits'))
+                            s.sym.setdefault(nm_, tr_)
+                            r_ = sym(nm_)
+                    out.append((s, r_))
             return out
         if ck == 'PointerToBoolean':
             out = []
